@@ -12,7 +12,7 @@ WORLDS = {
     "mod": {},
     "gossip": {"shims": {"kv/memberlist/zz_verif_sim.go": "shims/memberlist_sim.go"}},
     "merge": {},
-    "ring": {"extra_pkgs": ["simkv"], "simos": ["ring/tokens.go", "ring/lifecycler.go", "ring/basic_lifecycler_delegates.go"]},
+    "ring": {"extra_pkgs": ["simkv"], "l2": ["ring/ring.go"], "simos": ["ring/tokens.go", "ring/lifecycler.go", "ring/basic_lifecycler_delegates.go"]},
     "cache": {},
     "cas": {"requires": ["github.com/anishathalye/porcupine@v1.3.0"],
             "shims": {"kv/zz_verif_sim.go": "shims/kv_sim.go", "kv/consul/zz_verif_sim.go": "shims/consul_sim.go", "kv/memberlist/zz_verif_sim.go": "shims/memberlist_sim.go"}},
@@ -195,6 +195,16 @@ PROPS["C12"] = {
     "level_text": "seeded exploration of membership histories with per-version shard oracles and a history oracle for look-back; sampling, not proof",
     "level_note": "trusted: simulator engine; shard shape arithmetic written from the statement",
     "design_ref": "DESIGN.md section 5 C12",
+}
+
+PROPS["C13"] = {
+    "world": "ring", "level": "exploration", "quick_s": 25, "thorough_s": 600,
+    "rule": "one evaluation = one history of 10..70 steps against one long-lived ring client with caches on, fed through the store's watch (the scheduler decides when, and how coalesced, it is handed a new version): random descriptor updates (heartbeat-only, state-only, tokens, zone, address, registration time, read-only flag/time, versions map, instance add/remove, identical rewrite; 1-2 per write; store that shares token storage between versions or decodes fresh copies), clock advances 1 s..1 h, cache clean-ups; after every step 0..3 random questions (ShuffleShard, ShuffleShardWithLookback at now-3h..now+1h with windows 1 min..3 h, Get, GetAllHealthy, GetReplicationSetForOperation, GetSubringForOperationStates, per-instance state/desc/token ranges, counts, zones) are answered by the long-lived client and by a cache-less client freshly built from the last version handed over, at the same frozen instant, and compared field by field (sub-rings through a full fingerprint of their own answers); scenario 'ring-client-concurrent-readers' additionally runs reader tasks whose lock acquisitions in ring/ring.go are scheduling points (L2) while updates are applied: each concurrent answer must equal the fresh answer for one of the versions current while it ran; non-trivial = at least 3 updates, 3 versions handed over and 5 compared answers; distinct = distinct released-task/action sequence hash among non-trivial runs",
+    "real": ["ring.Ring client with sub-ring caches (updateRingState, RingCompare shortcut, ShuffleShard*/cache fill and refresh, all read methods)", "ring.PartitionRingWatcher, ring.PartitionRing and its shuffle-shard caches (map and LRU)", "consul in-memory store"], "stub": ["kv seam (worlds/simkv) with harness-owned WatchKey", "storage-sharing in-process store (other half of the runs)", "descriptor mutator (harness)"],
+    "assumptions": _ASSUME_COMMON + ["no two instances hold the same token in generated descriptors (the answer of either client would then depend on map iteration order)", "the partition-ring half (scenario 'partition-watcher': PartitionRingWatcher with map or LRU(1,2,8) shard caches, random partition / owner / lock updates, delegate callbacks) is sequential: lock-point interleavings are only explored for the instance ring"],
+    "level_text": "seeded differential exploration: long-lived cached client vs. fresh cache-less client on the same content at the same instant, over random update/query histories with scheduler-controlled watch delivery and (second scenario) lock-point interleavings of concurrent readers; sampling, not proof",
+    "level_note": "trusted: simulator engine, simkv watch seam (records exactly the value handed to the client's callback), the fresh client as reference (its own correctness is C01/C12/C14)",
+    "design_ref": "DESIGN.md section 5 C13",
 }
 
 HOOK_COMMITS = []
